@@ -523,6 +523,11 @@ Interval<To_Boundary, To_Info>::refine_universal(Relation_Symbol rel,
   switch (rel) {
   case LESS_THAN:
     {
+      if (!To_Info::may_contain_infinity
+          && is_boundary_infinity(LOWER, f_lower(x), f_info(x))) {
+        // No finite value is less than all the elements of `x'.
+        return assign(EMPTY);
+      }
       if (lt(UPPER, upper(), info(), LOWER, f_lower(x), f_info(x))) {
         return combine(V_EQ, V_EQ);
       }
@@ -535,6 +540,10 @@ Interval<To_Boundary, To_Info>::refine_universal(Relation_Symbol rel,
     }
   case LESS_OR_EQUAL:
     {
+      if (!To_Info::may_contain_infinity
+          && is_boundary_infinity(LOWER, f_lower(x), f_info(x))) {
+        return assign(EMPTY);
+      }
       if (le(UPPER, upper(), info(), LOWER, f_lower(x), f_info(x))) {
         return combine(V_EQ, V_EQ);
       }
@@ -546,6 +555,11 @@ Interval<To_Boundary, To_Info>::refine_universal(Relation_Symbol rel,
     }
   case GREATER_THAN:
     {
+      if (!To_Info::may_contain_infinity
+          && is_boundary_infinity(UPPER, f_upper(x), f_info(x))) {
+        // No finite value is greater than all the elements of `x'.
+        return assign(EMPTY);
+      }
       if (gt(LOWER, lower(), info(), UPPER, f_upper(x), f_info(x))) {
         return combine(V_EQ, V_EQ);
       }
@@ -558,6 +572,10 @@ Interval<To_Boundary, To_Info>::refine_universal(Relation_Symbol rel,
     }
   case GREATER_OR_EQUAL:
     {
+      if (!To_Info::may_contain_infinity
+          && is_boundary_infinity(UPPER, f_upper(x), f_info(x))) {
+        return assign(EMPTY);
+      }
       if (ge(LOWER, lower(), info(), UPPER, f_upper(x), f_info(x))) {
         return combine(V_EQ, V_EQ);
       }
@@ -577,13 +595,9 @@ Interval<To_Boundary, To_Info>::refine_universal(Relation_Symbol rel,
       if (check_empty_arg(*this)) {
         return I_EMPTY;
       }
-      if (eq(LOWER, lower(), info(), LOWER, f_lower(x), f_info(x))) {
-        remove_inf();
-      }
-      if (eq(UPPER, upper(), info(), UPPER, f_upper(x), f_info(x))) {
-        remove_sup();
-      }
-      return I_ANY;
+      // The elements different from all the elements of `x'
+      // are those that are not in `x'.
+      return difference_assign(x);
     }
   default:
     PPL_UNREACHABLE;
